@@ -13,18 +13,21 @@ from .. import build, models
 
 
 class TokenStream:
-    def __init__(self, m, n, prefix="tok"):
+    def __init__(self, m, n, prefix="tok", fixed=()):
+        """n symbolic tokens after the concrete token kinds named in `fixed`."""
         self.m = m
-        self.n = n
+        self.fixed = list(fixed)
         self.prefix = prefix
-        self.kinds = [z3.BitVec("%s%d.kind" % (prefix, i), 64) for i in range(n)]
+        self.kinds = [bv64(m.vidx("TokenKind", k)) for k in self.fixed] + \
+                     [z3.BitVec("%s%d.kind" % (prefix, i + len(self.fixed)), 64) for i in range(n)]
+        self.n = len(self.kinds)
         self.EOF = m.vidx("TokenKind", "Eof")
         self.never = [m.vidx("TokenKind", k) for k in ("Eof", "WS", "Comment")]
         self.nkinds = len(m.enums["TokenKind"])
 
     def constraints(self):
         cs = []
-        for k in self.kinds:
+        for k in self.kinds[len(self.fixed):]:
             cs.append(z3.ULT(k, bv64(self.nkinds)))
             for nv in self.never:
                 cs.append(k != bv64(nv))
